@@ -1378,7 +1378,7 @@ func (f *fragment) rangeLT(bitDepth uint, predicate int64, allowEquality bool) (
 	}
 
 	// If predicate is positive, return all positives less than predicate and all negatives.
-	if (predicate >= 0 && allowEquality) || (predicate >= -1 && !allowEquality) {
+	if predicate >= 0 {
 		pos, err := f.rangeLTUnsigned(b.Difference(f.row(bsiSignBit)), bitDepth, upredicate, allowEquality)
 		if err != nil {
 			return nil, err
@@ -1394,6 +1394,12 @@ func (f *fragment) rangeLT(bitDepth uint, predicate int64, allowEquality bool) (
 // rangeLTUnsigned returns all bits LT/LTE the predicate without considering the sign bit.
 func (f *fragment) rangeLTUnsigned(filter *Row, bitDepth uint, predicate uint64, allowEquality bool) (*Row, error) {
 	keep := NewRow()
+
+	// Nothing is strictly below zero (the loop below would otherwise return
+	// the columns holding exactly zero).
+	if predicate == 0 && !allowEquality {
+		return keep, nil
+	}
 
 	// Filter any bits that don't match the current bit value.
 	leadingZeros := true
@@ -1447,7 +1453,7 @@ func (f *fragment) rangeGT(bitDepth uint, predicate int64, allowEquality bool) (
 	}
 
 	// If predicate is positive, return all positives greater than predicate.
-	if (predicate >= 0 && allowEquality) || (predicate >= -1 && !allowEquality) {
+	if predicate >= 0 {
 		return f.rangeGTUnsigned(b.Difference(f.row(bsiSignBit)), bitDepth, upredicate, allowEquality)
 	}
 
@@ -1462,6 +1468,12 @@ func (f *fragment) rangeGT(bitDepth uint, predicate int64, allowEquality bool) (
 
 func (f *fragment) rangeGTUnsigned(filter *Row, bitDepth uint, predicate uint64, allowEquality bool) (*Row, error) {
 	keep := NewRow()
+
+	// At bit depth 0 every stored value is zero and nothing is strictly
+	// above the predicate (the loop below would not run at all).
+	if bitDepth == 0 && !allowEquality {
+		return keep, nil
+	}
 
 	// Filter any bits that don't match the current bit value.
 	for i := int(bitDepth - 1); i >= 0; i-- {
